@@ -606,12 +606,14 @@ def dns_name(labels):
     return out + b"\x00"
 
 
-def raw_message(mid, flags, qname_labels, qtype, an_rrs, ar_rrs, qd=1, tail=b""):
-    """hand-built message; RRs are (owner bytes, type, ttl, rdata)"""
+def raw_message(mid, flags, qname_labels, qtype, an_rrs, ar_rrs, qd=1, tail=b"", qclass=1, qname_raw=None, rrclass=1):
+    """hand-built message; RRs are (owner bytes, type, ttl, rdata); qname_raw overrides the wire form
+    of the question name"""
     m = bytes([mid >> 8, mid & 255, flags >> 8, flags & 255, 0, qd, 0, len(an_rrs), 0, 0, 0, len(ar_rrs)])
-    m += dns_name(qname_labels) + bytes([qtype >> 8, qtype & 255, 0, 1])
+    m += (qname_raw if qname_raw is not None else dns_name(qname_labels))
+    m += bytes([qtype >> 8, qtype & 255, qclass >> 8, qclass & 255])
     for owner, typ, ttl, rdata in an_rrs + ar_rrs:
-        m += owner + bytes([typ >> 8, typ & 255]) + (b"\x00\x01" if typ != 41 else b"\x04\xd0")
+        m += owner + bytes([typ >> 8, typ & 255]) + (bytes([rrclass >> 8, rrclass & 255]) if typ != 41 else b"\x04\xd0")
         m += bytes([(ttl >> 24) & 255, (ttl >> 16) & 255, (ttl >> 8) & 255, ttl & 255])
         m += bytes([len(rdata) >> 8, len(rdata) & 255]) + rdata
     return m + tail
@@ -649,10 +651,34 @@ def sc_rawmsg(cx):
     for _ in range(r.randint(2, 5)):
         c = r.choice(["ptr-own", "ptr-forward", "ptr-self", "ptr-chain", "opts", "dupcookie-badlast", "dupcookie-goodlast",
                       "emptycookie", "emptycookie-first",
+                      # every question field compared as RAW octets: values that differ from what was asked
+                      # only in high bits, or only by being another legal value
+                      "class-hi", "class-hi", "class-hi", "class-legal", "type-hi", "type-hi", "name-hibit", "name-hibit",
+                      "len-hibit", "rrclass-hi", "genuine-raw",
                       "escaped-dot", "escaped-label", "nonprint", "trailing", "liecount", "uncompressed", "label64"])
-        flags = 0x8180
+        # header variants that change what an ACCEPTED reply does next: plain, TC, SERVFAIL, FORMERR, REFUSED
+        flags = r.choice([0x8180, 0x8180, 0x8180, 0x8380, 0x8182, 0x8181, 0x8185])
         msg = None
-        if c == "ptr-own":            # ordinary: owner = pointer to the question name
+        if c == "class-hi":           # asked IN (1): same low bits, other high bits / no class at all
+            msg = raw_message(mid, flags, labels, 1, [arec()], [], qclass=r.choice([0x8001, 0x8001, 0x0101, 0xFF01, 0x4001, 0]))
+        elif c == "class-legal":      # another class the parser accepts
+            msg = raw_message(mid, flags, labels, 1, [arec()], [], qclass=r.choice([3, 4, 254, 255]))
+        elif c == "type-hi":          # asked A (1)
+            msg = raw_message(mid, flags, labels, r.choice([0x8001, 0x0101, 0xFF01, 0x4001, 0]), [arec()], [])
+        elif c == "name-hibit":       # one letter with the high bit set / cleared into another character
+            lab0 = bytearray(labels[0])
+            i = r.randrange(len(lab0))
+            lab0[i] ^= r.choice([0x80, 0x80, 0x40, 0x01])
+            msg = raw_message(mid, flags, [bytes(lab0)] + labels[1:], 1, [arec()], [])
+        elif c == "len-hibit":        # a length octet with a high bit set (reserved label type / pointer)
+            raw = bytearray(dns_name(labels))
+            raw[0] |= r.choice([0x80, 0x40, 0xC0])
+            msg = raw_message(mid, flags, labels, 1, [arec(dns_name(labels))], [], qname_raw=bytes(raw))
+        elif c == "rrclass-hi":       # the ANSWER record's class with the cache-flush style high bit
+            msg = raw_message(mid, flags, labels, 1, [arec()], [], rrclass=r.choice([0x8001, 0x0101, 255, 0]))
+        elif c == "genuine-raw":      # control: the same hand-built message with nothing wrong
+            msg = raw_message(mid, 0x8180, labels, 1, [arec()], [])
+        elif c == "ptr-own":          # ordinary: owner = pointer to the question name
             msg = raw_message(mid, flags, labels, 1, [arec()], [])
         elif c == "uncompressed":
             msg = raw_message(mid, flags, labels, 1, [arec(dns_name(labels))], [])
@@ -823,7 +849,7 @@ def sc_cross(cx):
 
 SCENARIOS = [("basic", sc_basic, 20), ("resend", sc_resend, 16), ("tcpup", sc_tcpup, 10), ("done", sc_done, 8),
              ("idreuse", sc_idreuse, 8), ("cache", sc_cache, 10), ("cookie", sc_cookie, 12), ("errors", sc_errors, 8),
-             ("random", sc_random, 8), ("reentrant", sc_reentrant, 8), ("wrapped", sc_wrapped, 10), ("rawmsg", sc_rawmsg, 8), ("probe", sc_probe, 8), ("cross", sc_cross, 24)]
+             ("random", sc_random, 8), ("reentrant", sc_reentrant, 8), ("wrapped", sc_wrapped, 10), ("rawmsg", sc_rawmsg, 16), ("probe", sc_probe, 8), ("cross", sc_cross, 24)]
 
 
 def gen_case(rng):
